@@ -1,6 +1,6 @@
 (* C12 proofs, part G: all op lists on the hierarchy. *)
 From Coq Require Import List NArith Bool Lia PeanoNat.
-From LTV.C12 Require Import ParamsGen.
+From LTV.C12 Require Import ParamsGen PolicyGen.
 From LTV.C12 Require Import Model ProofsA ProofsB ProofsC ProofsD ProofsE ProofsF.
 Import ListNotations.
 Local Open Scope N_scope.
